@@ -88,6 +88,11 @@ type partial struct {
 	Counters     map[string]int64
 	Violations   []Violation
 	Inconclusive []string
+	Rule         string
+	Assumptions  []string
+	Required     map[string]int64
+	Exhaustive   bool
+	ExtraJSON    map[string]string
 }
 
 func envInt(name string, def int64) int64 {
@@ -393,7 +398,13 @@ func childMain(s Spec) {
 		r.curFile = f
 	}
 	s.Body(r)
-	p := partial{Evaluations: r.evaluations, Counters: r.counters, Violations: r.violations, Inconclusive: r.inconclusive}
+	p := partial{Evaluations: r.evaluations, Counters: r.counters, Violations: r.violations, Inconclusive: r.inconclusive,
+		Rule: r.rule, Assumptions: r.assumptions, Required: r.required, Exhaustive: r.exhaustive, ExtraJSON: map[string]string{}}
+	for k, v := range r.extra {
+		if b, err := json.Marshal(v); err == nil {
+			p.ExtraJSON[k] = string(b)
+		}
+	}
 	for k := range r.distinct {
 		p.Distinct = append(p.Distinct, k)
 	}
@@ -554,6 +565,23 @@ func (r *Run) merge(p *partial) {
 	}
 	r.violations = append(r.violations, p.Violations...)
 	r.inconclusive = append(r.inconclusive, p.Inconclusive...)
+	if p.Rule != "" {
+		r.rule = p.Rule
+	}
+	if len(p.Assumptions) > 0 {
+		r.assumptions = p.Assumptions
+	}
+	for k, v := range p.Required {
+		r.required[k] = v
+	}
+	if p.Exhaustive {
+		r.exhaustive = true
+	}
+	for k, v := range p.ExtraJSON {
+		if _, ok := r.extra[k]; !ok {
+			r.extra[k] = json.RawMessage(v)
+		}
+	}
 }
 
 // finish classifies violations, prints the verdict lines, writes evidence and
